@@ -38,7 +38,7 @@ PROPS = {
                 note="Trusted: simulator, the independent reference implementation (sim/ref/obfs4ref) used as impostor and for locating response fields. Real code: obfs4 client and server.",
                 technique=TECH + "second-party deviation (impostor / on-path tamper) under seeded chunking and scheduling"),
     "C03": dict(engine="wire", quick=40, thorough=600, level="exploration", design="DESIGN.md section 4, C03",
-                text="1-4 sequential or concurrent probers per run (silent, random lengths incl. 8191/8192/8193, truncated/extended/bit-flipped/short-padded valid handshakes, hours outside the window, wrong key / node ID, low-order X', byte-identical replay, floods of 1.25 MiB, early disconnects, pauses beyond 30 s) against one real server factory (and a second factory started from the same identity); oracle on the server-side conn: zero bytes written, close exactly at accept+D with 30 s <= D < 90 s and D identical for all probes of the bridge, input drained until then, prompt return on early disconnect; a conforming control client is answered.",
+                text="1-4 sequential or concurrent probers per run (silent, random lengths incl. 8191/8192/8193, truncated/extended/bit-flipped/short-padded valid handshakes, hours outside the window (also one that is acceptable when the connection is accepted and stale when the handshake is sent), wrong key / node ID, low-order X', byte-identical replay (also of originals whose answer got stuck or whose client was gone), floods of 1.25 MiB, early disconnects, pauses beyond 30 s) against one real server factory (and a second factory started from the same identity); oracle on the server-side conn: zero bytes written, close exactly at accept+D with 30 s <= D < 90 s and D identical for all probes of the bridge, input drained until then, prompt return on early disconnect; a conforming control client is answered.",
                 note="Trusted: simulator, reference implementation (crafts the probes). D is never recomputed from the seed. Real code: obfs4 server.",
                 technique=TECH + "adversarial probers on a virtual clock, wire-level oracle on the server-side conn"),
     "C04": dict(engine="wire", engines=["wire", "woven"], quick=40, thorough=600, level="exploration", design="DESIGN.md section 4, C04",
@@ -62,7 +62,7 @@ PROPS = {
                 note="Trusted: simulator, the independent obfs3/UniformDH reference (sim/ref/obfsref, math/big). Shared-secret agreement for X / p-X is established through two-role interop, not algebraically.",
                 technique=TECH + "two-party interop against an independent reference, seeded segmentation, edge-entropy injection"),
     "C14": dict(engine="wire", engines=["wire", "woven"], quick=40, thorough=600, level="exploration", design="DESIGN.md section 4, C14",
-                text="obfs2 real<->real and both real/reference role pairings with reference padding 0..8192 incl. extremes, all write plans and chunkings; rejection runs with every single-bit corruption of the magic and PADLEN 8193 .. 2^32-1 (must fail Dial/WrapConn) and PADLEN 8192 (must be accepted); the reference parses the real side's seed/magic/padlen and decrypts its stream byte-exactly.",
+                text="obfs2 real<->real and both real/reference role pairings with reference padding 0..8192 incl. extremes and reference seeds incl. all-zero / all-ones, all write plans and chunkings; rejection runs with every single-bit corruption of the magic and PADLEN 8193 .. 2^32-1 (must fail Dial/WrapConn) and PADLEN 8192 (must be accepted); the reference parses the real side's seed/magic/padlen and decrypts its stream byte-exactly.",
                 note="Trusted: simulator, the independent obfs2 reference (sim/ref/obfsref).",
                 technique=TECH + "two-party interop against an independent reference, seeded segmentation, malformed-handshake injection"),
     "C15": dict(engine="disk", quick=40, thorough=600, level="exploration", design="DESIGN.md section 4, C15",
